@@ -1291,7 +1291,10 @@ macro_rules! conc_prop {
                 $id
             }
             fn engine(&self) -> &'static str {
-                "asim + tsim (shuttle)"
+                "asim + tsim (shuttle) + msim (Miri)"
+            }
+            fn supplement(&self, tier: Tier, seed: u64) -> (Vec<crate::world::Violation>, Value) {
+                super::common::msim_supplement($id, "breaker", tier, seed)
             }
             fn gen(&self, rng: &mut Rng, _t: Tier) -> Value {
                 // one run in eight drives the breaker from several threads (engine B)
